@@ -149,6 +149,12 @@ func downgrade(t *rapid.T, f M, version string) []string {
 					}
 				}
 			}
+			if vLess(version, "13.3.0") {
+				if hs, ok := a["headers"].(M); ok && rapid.IntRange(0, 1).Draw(t, "webhookheader") == 0 {
+					hs["X-Prev"] = rapid.SampledFrom([]string{"Token @webhook.token", "@webhook", "@(WEBHOOK.name)", "id-@webhook.json.id"}).Draw(t, "whheader")
+					feats = append(feats, "webhook-ref")
+				}
+			}
 			if vLess(version, "13.6.0") && a["type"] == "set_run_result" && rapid.IntRange(0, 2).Draw(t, "longname") == 0 {
 				a["name"] = strings.Repeat("Long Result Name ", 5) + "x"
 				if _, ok := a["category"]; ok {
@@ -341,6 +347,11 @@ func webhookRelation(orig, migrated []byte) *harn.Failure {
 				for _, key := range []string{"text", "value", "name", "body", "url"} {
 					if s, ok := a[key].(string); ok {
 						out[fmt.Sprint(a["uuid"])+"/"+key] = s
+					}
+				}
+				if hs, ok := a["headers"].(map[string]any); ok {
+					for hk, hv := range hs {
+						out[fmt.Sprint(a["uuid"])+"/headers/"+hk] = fmt.Sprint(hv)
 					}
 				}
 			}
@@ -570,7 +581,7 @@ func fragmentsDir() string {
 	return filepath.Join(root, "harness", "corpus", "C16", "legacy_fragments")
 }
 
-func legacyFlow(flowType string, nodes []M, isRuleSet []bool) M {
+func legacyFlow(flowType string, nodes []M, isRuleSet []bool, entry ...int) M {
 	f := M{"metadata": M{"uuid": world.UUID("flow", 1), "name": "Legacy", "revision": 1}, "base_language": "eng", "flow_type": flowType}
 	as, rs := []M{}, []M{}
 	for i, n := range nodes {
@@ -582,7 +593,11 @@ func legacyFlow(flowType string, nodes []M, isRuleSet []bool) M {
 	}
 	f["action_sets"], f["rule_sets"] = as, rs
 	if len(nodes) > 0 {
-		f["entry"] = nodes[0]["uuid"]
+		e := 0
+		if len(entry) > 0 {
+			e = entry[0]
+		}
+		f["entry"] = nodes[e]["uuid"]
 	}
 	return f
 }
@@ -696,11 +711,17 @@ func drawLegacyCase(t *rapid.T) LegacyCase {
 	nodes := []M{}
 	nextID := 0
 	id := func(kind string) string { nextID++; return world.UUID(kind, nextID) }
+	// canvas positions are arbitrary: the entry node need not be the topmost one
+	ys := make([]int, n)
+	for i := range ys {
+		ys[i] = rapid.IntRange(0, 10).Draw(t, "y") * 50
+	}
+	entry := rapid.IntRange(0, n-1).Draw(t, "entry")
 	for i := 0; i < n; i++ {
 		if isRS[i] {
 			node := deepCopy(rapid.SampledFrom(frags.rulesets[ft]).Draw(t, "ruleset"))
 			node["uuid"] = uuidsOf[i]
-			node["x"], node["y"] = 100, i*100
+			node["x"], node["y"] = 100, ys[i]
 			byCat := map[string][2]any{}
 			if rules, ok := node["rules"].([]any); ok {
 				for _, rl := range rules {
@@ -727,10 +748,10 @@ func drawLegacyCase(t *rapid.T) LegacyCase {
 				actions = append(actions, a)
 			}
 			d0, _ := dest()
-			nodes = append(nodes, M{"uuid": uuidsOf[i], "x": 100, "y": i * 100, "destination": d0, "exit_uuid": id("lexit"), "actions": actions})
+			nodes = append(nodes, M{"uuid": uuidsOf[i], "x": 100, "y": ys[i], "destination": d0, "exit_uuid": id("lexit"), "actions": actions})
 		}
 	}
-	b, _ := json.Marshal(legacyFlow(ft, nodes, isRS))
+	b, _ := json.Marshal(legacyFlow(ft, nodes, isRS, entry))
 	return LegacyCase{Flow: b, Seed: int64(rapid.IntRange(1, 1000).Draw(t, "seed"))}
 }
 
